@@ -53,7 +53,9 @@ fn cpu_ms() -> i64 {
     unsafe {
         let mut ru: libc::rusage = std::mem::zeroed();
         libc::getrusage(libc::RUSAGE_SELF, &mut ru);
-        (ru.ru_utime.tv_sec as i64 + ru.ru_stime.tv_sec as i64) * 1000 + (ru.ru_utime.tv_usec as i64 + ru.ru_stime.tv_usec as i64) / 1000
+        // user time only: system time (page faults, mmap) of a process multiplies when dozens of
+        // workers compete for the kernel's memory-management locks, user time does not
+        ru.ru_utime.tv_sec as i64 * 1000 + ru.ru_utime.tv_usec as i64 / 1000
     }
 }
 
